@@ -553,6 +553,33 @@ pub fn run(cx: &mut Cx) {
         if let Some((class, why)) = verdict {
             cx.violation(&format!("C01/{class}/{}", p.sink), format!("{why}; marked output {:?}", clip(&out_b, 300)), replay.clone());
         }
+        // ---- the same program through render_block: the block's text obeys the same rule as inside the full render
+        if let Some(bname) = if p.route.contains(&"block") { Some("main") } else if p.route.contains(&"super") { Some("inner") } else { None } {
+            let b0 = ESC_CALLS.load(Ordering::Relaxed);
+            cx.eval();
+            match guard(|| t.render_block(&p.entry, bname, &p.ctx)) {
+                Ok(Ok(ob)) => {
+                    let calls = ESC_CALLS.load(Ordering::Relaxed) - b0;
+                    let ds = depths(&ob);
+                    cx.count("render_block_outputs_classified", 1);
+                    let bad: Option<String> = if !autoescape {
+                        (calls != 0 || ds.iter().any(|(_, d)| *d != 0)).then(|| format!("{calls} escaper call(s) although autoescape is off"))
+                    } else if p.safe {
+                        ds.iter().find(|(_, d)| *d != 0).map(|(c, d)| format!("safe value escaped: `{c}` at depth {d}"))
+                    } else if p.passthrough {
+                        ds.iter().find(|(_, d)| *d != 1).map(|(c, d)| format!("`{c}` at depth {d} in a pass-through route"))
+                    } else {
+                        ds.iter().find(|(_, d)| *d < 1).map(|(c, d)| format!("`{c}` at depth {d}"))
+                    };
+                    if ds.is_empty() {
+                        cx.violation("C01/data-lost/render_block", format!("render_block({bname}) wrote no data character: {:?}", clip(&ob, 200)), replay.clone());
+                    } else if let Some(why) = bad {
+                        cx.violation(&format!("C01/render_block-escapes-differently/{}", p.sink), format!("render_block({bname}): {why}; marked output {:?}", clip(&ob, 300)), replay.clone());
+                    }
+                }
+                other => cx.violation("C01/render_block-fails", format!("render_block({bname}) on a route that renders: {:?}", other.map(|r| r.map_err(|e| e.to_string()))), replay.clone()),
+            }
+        }
         // ---- per-call flags: render_str with the flag on/off behaves like the matching suffix
         if case % 5 == 0 {
             let src = "{{ v }}|{{ m.k }}|{% set c %}{{ v }}{% endset %}{{ c }}";
